@@ -1172,7 +1172,7 @@ class Client:
 
         # It is important for all keys to be listed in their original order.
         cmd = name
-        if expire is not None:
+        if expire is not None or name in (b"gat", b"gats"):
             expire_bytes = self._check_integer(expire, "expire")
             cmd += b" " + expire_bytes
 
